@@ -1,6 +1,6 @@
 (* Function table for the function-level correspondence check.  The ids are
    mirrored in harness/fnids.go. *)
-From OTR Require Import Go.Base Gen.Consts Corr.Val Bytes.Wire Bytes.Msgs Bytes.Strconv Bytes.B64 Bytes.Frag Bytes.Text Proto.Group Crypto.Sha Crypto.Aes Spec.Otr Bytes.Sexp.
+From OTR Require Import Go.Base Gen.Consts Corr.Val Bytes.Wire Bytes.Msgs Bytes.Strconv Bytes.B64 Bytes.Frag Bytes.Text Proto.Group Crypto.Sha Crypto.Aes Spec.Otr Bytes.Sexp Bytes.KeyFile.
 Open Scope N_scope.
 
 Definition v_rest_n (o : option (bytes * N)) : val :=
@@ -112,6 +112,17 @@ Fixpoint v_sx (s : sx) : val :=
   | SNum (Some (neg, n)) => VL [VN 4; VL [vbool neg; VN n]]
   end.
 
+Definition v_big (v : bigint) : val := match v with None => VNone | Some (neg, n) => VL [vbool neg; VN n] end.
+Definition big_of (v : val) : bigint :=
+  match v with VL [VN s; VN n] => Some (negb (s =? 0), n) | _ => None end.
+Definition v_account (a : account) : val :=
+  let k := aKey a in VL [VB (aName a); VB (aProto a); VL (map v_big [dP k; dQ k; dG k; dY k; dX k])].
+Definition account_of (v : val) : account :=
+  let l := valL v in
+  let k := map big_of (argL l 2) in
+  {| aName := argB l 0; aProto := argB l 1;
+     aKey := {| dP := nth 0 k None; dQ := nth 1 k None; dG := nth 2 k None; dY := nth 3 k None; dX := nth 4 k None |} |}.
+
 Definition dispatch_text (fn : N) (a : list val) : val :=
   match fn with
   | 50 => VB (b64encode (argB a 0))
@@ -120,6 +131,9 @@ Definition dispatch_text (fn : N) (a : list val) : val :=
   | 53 => VB (encode (argB a 0))
   | 90 => vbool (isGroupElementN (argN a 0) (argN a 1))
   | 120 => match sexp_read (argB a 0) with Some (Some x) => v_sx x | Some None => VNone | None => VErr 998 end
+  | 121 => match importKeys (argB a 0) with Some (Some l) => VL (map v_account l) | Some None => VNone | None => VErr 998 end
+  | 122 => VB (exportAccounts (map account_of (argL a 0)))
+  | 123 => match import_priv (argB a 0) with Some l => VL (map VN l) | None => VNone end
   (* cryptographic primitives of the specification model *)
   | 100 => VB (sha1 (argB a 0))
   | 101 => VB (sha256 (argB a 0))
